@@ -55,6 +55,7 @@ def opOfJson (op : String) (a : Json) : Option (Op Res4) :=
     some (.setNode (jstr (jget a "node")) (if c.isNull then none else some (resOfJson c)))
   | "addnode" => some (.addNode (jstr (jget a "node")) (resOfJson (jget a "cap")))
   | "removenode" => some (.removeNode (jstr (jget a "node")))
+  | "fixnode" => some (.nodeResource (jstr (jget a "node")) (jbool (jget a "fix")))
   | _ => none
 
 def faultOfJson (j : Json) : Option Addr :=
@@ -87,6 +88,9 @@ def stateDiff (names : List String) (a b : State Res4) : List String :=
 def withinCapB (names : List String) (s : State Res4) : Bool :=
   names.all (fun n => Res4.le (s.usage n) (s.cap n))
 
+/-- the violating call of a lock-discipline report is the repair of NodeResource(fix) -/
+def isFixViol (v : String) : Bool := v.startsWith "pluginGetNodeResourceInfo"
+
 def plannedOf : Op Res4 → Nat
   | .create a => (a.plan.map (fun p => p.2.length)).foldl (· + ·) 0
   | _ => 0
@@ -110,7 +114,10 @@ def handleConcurrent (j : Json) : Json :=
     let agree := (core ab post).isEmpty || (core ba post).isEmpty
     let dir := if (namesOf post).any (fun n => decide ((load post n).mem > (post.usage n).mem)) then "records-exceed-usage" else "usage-exceeds-records"
     let spec := (if consistentB pre && !consistentB post then [s!"C10:inconsistent:concurrent:{na}+{nb}:{dir}"] else []) ++
-      (match jarr (jget j "lock_viol") with | [] => [] | v :: _ => [s!"C10:usage-write-without-pod-lock:concurrent:{jstr v}"])
+      (match jarr (jget j "lock_viol") with
+       | [] => []
+       | v :: _ => [s!"C10:usage-write-without-pod-lock:concurrent:{jstr v}"] ++
+                   (if isFixViol (jstr v) then ["C15:fix-without-pod-lock:concurrent"] else []))
     Json.mkObj [("id", id), ("agree", agree), ("model", Json.mkObj [("diff", Json.arr ((core ab post).map Json.str).toArray)]),
       ("spec", Json.arr (spec.map Json.str).toArray), ("class", s!"concurrent:{na}+{nb}")]
   | _, _ => Json.mkObj [("id", id), ("agree", false), ("error", "unknown op"), ("spec", Json.arr #[]), ("class", "bad")]
@@ -122,7 +129,10 @@ def handle (j : Json) : Json :=
   let pre := stateOfJson (jget j "pre")
   let post := stateOfJson (jget j "post")
   let flt := faultOfJson (jget j "fault")
-  let fkind := match flt with | some a => a.kind | none => "nofault"
+  let jc := jget j "cancel"
+  let cancelled := !jc.isNull
+  let fkind := if cancelled then s!"{jstr (jget jc "how")}-{if jbool (jget jc "after") then "after" else "before"}@{jstr (jget jc "kind")}"
+    else match flt with | some a => a.kind | none => "nofault"
   let fired := jbool (jget j "fired")
   let imsgs := msgsOfJson (jget j "msgs")
   let iret := jstr (jget j "ret")
@@ -154,7 +164,8 @@ def handle (j : Json) : Json :=
                (if withinCapB names pre && !withinCapB names post && opName != "setnode" then [s!"C10:over-capacity:{opName}:{fkind}"] else []) ++
                (match jarr (jget j "lock_viol") with
                 | [] => []
-                | v :: _ => [s!"C10:usage-write-without-pod-lock:{opName}:{jstr v}"])
+                | v :: _ => [s!"C10:usage-write-without-pod-lock:{opName}:{jstr v}"] ++
+                            (if isFixViol (jstr v) then [s!"C15:fix-without-pod-lock:{opName}"] else []))
     -- the plugin's COMPLETE capacity record (cpu map, cpu→NUMA map, NUMA memory incl. zero entries, memory)
     let sigs (k : String) : List (String × String) :=
       (jarr (jget (jget j k) "nodes")).map (fun n => (jstr (jget n "name"), jstr (jget n "capsig")))
@@ -193,7 +204,11 @@ def handle (j : Json) : Json :=
       match op with
       | .create _ =>
         let created := (post.wls.filter (fun w => !pre.wls.contains w)).length
-        (if streamShapeB (plannedOf op) imsgs created then [] else [s!"C12:stream-shape:{fkind}"]) ++
+        let planned := if cancelled then jnat (jget (jget j "args") "planned") else plannedOf op
+        -- under cancellation the plan of the run may be cut short: accept the run's own plan or the fault-free twin's
+        (if streamShapeB planned imsgs created || (cancelled && streamShapeB (plannedOf op) imsgs created) then []
+         else [s!"C12:stream-shape:{fkind}"]) ++
+        (if iret.startsWith "timeout" then [s!"C12:stream-not-closed:{fkind}"] else []) ++
         (if truthfulB imsgs post then [] else [s!"C12:success-untruthful:{fkind}"]) ++
         (if cleanB imsgs pre post then [] else [s!"C12:failure-left-behind:{fkind}"])
       | _ => []
@@ -202,7 +217,9 @@ def handle (j : Json) : Json :=
     -- a pre-state that already violates C10 (reached through a known finding) is outside the
     -- model's domain (the plugin may then refuse decrements): no correspondence claim, spec still evaluated
     let cls := if preOk then s!"{opName}:{outcome}:{fkind}" else s!"skip-pre-inconsistent:{opName}"
-    Json.mkObj [("id", id), ("agree", diffs.isEmpty || !preOk),
+    -- cancellation runs: specification only (the model has no notion of a cancelled caller)
+    let cls := if cancelled then s!"{opName}:cancelled:{outcome}" else cls
+    Json.mkObj [("id", id), ("agree", diffs.isEmpty || !preOk || cancelled),
       ("model", Json.mkObj [("diff", Json.arr (diffs.map Json.str).toArray), ("ret", mret),
                             ("msgs", Json.arr ((sortStr (ms.msgs.map msgKey)).map Json.str).toArray),
                             ("trace", if mtrace == itrace then Json.null else Json.arr (mtrace.map Json.str).toArray)]),
